@@ -60,6 +60,8 @@ pub struct Session {
     pub node_violations: Vec<(String, String)>,
     /// called after every node-side effect with (node, event) to evaluate invariants
     pub hashes: Vec<String>,
+    /// C14: payments for these hashes get stuck: (hash hex, "pay" | "waitsendpay")
+    pub stuck: Vec<(String, &'static str)>,
 }
 
 static SESSION_COUNTER: std::sync::atomic::AtomicU64 = std::sync::atomic::AtomicU64::new(0);
@@ -93,22 +95,28 @@ impl Session {
                 };
                 let txc = txa.clone();
                 std::thread::spawn(move || {
-                    let _ = c.set_read_timeout(Some(Duration::from_secs(20)));
-                    let mut buf = vec![];
+                    // like lightningd, serve any number of requests on one connection
+                    let _ = c.set_read_timeout(Some(Duration::from_secs(600)));
+                    let mut buf: Vec<u8> = vec![];
                     let mut tmp = [0u8; 4096];
                     loop {
-                        match c.read(&mut tmp) {
-                            Ok(0) | Err(_) => return,
-                            Ok(k) => {
-                                buf.extend_from_slice(&tmp[..k]);
-                                if buf.windows(2).any(|w| w == b"\n\n") {
-                                    break;
+                        while let Some(p) = buf.windows(2).position(|w| w == b"\n\n") {
+                            let doc: Vec<u8> = buf.drain(..p + 2).collect();
+                            if let Ok(v) = serde_json::from_slice::<Value>(&doc[..doc.len() - 2]) {
+                                match c.try_clone() {
+                                    Ok(w) => {
+                                        if txc.send(Ev::Rpc(v, w)).is_err() {
+                                            return;
+                                        }
+                                    }
+                                    Err(_) => return,
                                 }
                             }
                         }
-                    }
-                    if let Ok(v) = serde_json::from_slice::<Value>(&buf[..buf.len() - 2]) {
-                        let _ = txc.send(Ev::Rpc(v, c));
+                        match c.read(&mut tmp) {
+                            Ok(0) | Err(_) => return,
+                            Ok(k) => buf.extend_from_slice(&tmp[..k]),
+                        }
                     }
                 });
             }
@@ -188,6 +196,7 @@ impl Session {
             pay_script: None,
             node_violations: vec![],
             hashes: vec![],
+            stuck: vec![],
         };
         let slow = if valgrind.is_some() { 20 } else { 1 };
         s.send_doc(&json!({"jsonrpc": "2.0", "id": "gm", "method": "getmanifest", "params": {"allow-deprecated-apis": false}}), 0);
@@ -301,6 +310,24 @@ impl Session {
                 self.killed = true;
                 self.node.crash();
                 self.check_state("after-kill");
+                return;
+            }
+        }
+        if method == "pay" {
+            let hx = invoice_hash_hex(&params);
+            if let Some((_, at)) = self.stuck.iter().find(|(h, _)| *h == hx).cloned() {
+                self.pays_seen.push(params.clone());
+                let pid = self.node.start_pay(0, &params, &hx);
+                self.node.add_part(pid, 1000);
+                if at == "pay" {
+                    // the pay command never returns
+                    self.held.push(stream);
+                } else {
+                    // pay returns pending with its part still pending; the part never resolves
+                    let pay = self.node.pays.iter().find(|p| p.id == pid).unwrap().clone();
+                    self.node.pays.iter_mut().filter(|p| p.id == pid).for_each(|p| p.running = false);
+                    write_rpc(stream, &id, Ok(self.node.pay_response(&pay, "pending", false, None)));
+                }
                 return;
             }
         }
